@@ -29,6 +29,7 @@ func vCommand(router *Router, which int, topts TargetOptions, tag string) {
 // pre-state (including a service restored from the state file); no panic, no deadlock, no data race.
 func HarnessCmdMix() {
 	vT2(vParam("preemptions", 1), vParam("firings", 8))
+	vWatchPauseEvents()
 	vSortMode = 0
 	vSnapshotReal = true
 	vMapOrderFixed(true)
